@@ -59,6 +59,7 @@ Definition w_strip (w : weighting R) : weighting R :=
   | WInner _ f => WInner KNpy f
   | WNorm _ f => WNorm KNpy f
   | WDist _ f => WDist KNpy f
+  | WMatrix i e => WMatrix i e
   end.
 
 Lemma one_ne_two : (IZR 1 <> IZR 2)%R.
@@ -573,7 +574,7 @@ Notation keqR := (@key_eqv R Num_R).
 Notation hk := (@hash_key R Num_R v).
 
 Lemma w_key_strip (w : weighting R) : w_key v w = w_key v (w_strip w).
-Proof. destruct w as [k c e|k i e|k f|k f|k f]; try reflexivity. destruct k; cbn; rewrite ?Hh; reflexivity. Qed.
+Proof. destruct w as [k c e|k i e|k f|k f|k f|i e]; try reflexivity. destruct k; cbn; rewrite ?Hh; reflexivity. Qed.
 
 Lemma w_eqb_key (a b : weighting R) : w_eqb a b = true -> w_key v a = w_key v b.
 Proof. intro E. apply w_eqb_strip in E. rewrite (w_key_strip a), (w_key_strip b), E. reflexivity. Qed.
